@@ -74,7 +74,7 @@ class SimTimeModule:
     def time():
         k = CUR
         k.tick(US)
-        return k.now / SEC
+        return (k.now + k.wall_offset) / SEC       # wall clock: may be stepped (fault 'wall-clock-step'); monotonic() is not
 
     @staticmethod
     def monotonic():
